@@ -10,11 +10,12 @@ From TV Require Import Lib.Obs C23.Model.
    HAuth    : the string was derived from create(s0, name0, v0, ver0, t0, kv0) *)
 Inductive hint :=
 | HNone | HCrafted
-| HAuth (s0 : secret) (name0 v0 : bytes) (ver0 t0 : Z) (kv0 : option Z).
+| HAuth (s0 : secret_arg) (name0 v0 : pyarg) (ver0 t0 : Z) (kv0 : option Z).
 
 Inductive op :=
-| OpCreate (s : secret) (name v : bytes) (ver t : Z) (kv : option Z)
-| OpDecode (s : secret) (name x : bytes) (maxage now minv : Z) (h : hint).
+| OpCreate (s : secret_arg) (name v : pyarg) (ver t : Z) (kv : option Z)
+| OpDecode (s : secret_arg) (name : pyarg) (x : option pyarg) (maxage now minv : Z) (h : hint)
+| OpKeyVersion (x : pyarg).
 
 (* HMAC table of the case: (true = sha1, key, message, hex digest), computed by the
    harness with Python's hmac module *)
@@ -39,35 +40,39 @@ Definition exn_tag (e : exn) : obs :=
 
 Definition all_bytes (l : bytes) : bool := forallb (fun c => N.ltb c 256) l.
 
+Definition dec_obs (r : res (option bytes)) : obs :=
+  match r with
+  | Ok None => ONone
+  | Ok (Some v) => OBytes v
+  | Raise e => exn_tag e
+  end.
+
 Definition run_case (c : mactable * op) : obs :=
   let '(tbl, o) := c in
   match o with
   | OpCreate s name v ver t kv =>
-      match create (tmac tbl true) (tmac tbl false) s name v ver t kv with
+      match create_api (tmac tbl true) (tmac tbl false) s name v ver t kv with
       | Ok y => if all_bytes y then OBytes y else OTag "MacMissing"
       | Raise e => exn_tag e
       end
-  | OpDecode s name x maxage now minv _ =>
+  | OpDecode s name None maxage now minv _ =>
+      dec_obs (decode_api (tmac tbl true) (tmac tbl false) s name None maxage now minv)
+  | OpDecode s name (Some xa) maxage now minv _ =>
       let missing :=
-        match decode_query s name x minv with
+        match decode_query (secret_of s) (utf8 name) (utf8 xa) minv with
         | Some (alg, k, m) => match tlookup tbl alg k m with Some _ => false | None => true end
         | None => false
         end in
       if missing then OTag "MacMissing"
-      else match decode (tmac tbl true) (tmac tbl false) s name x maxage now minv with
-           | Ok None => ONone
-           | Ok (Some v) => OBytes v
-           | Raise e => exn_tag e
-           end
+      else dec_obs (decode_api (tmac tbl true) (tmac tbl false) s name (Some xa) maxage now minv)
+  | OpKeyVersion x =>
+      match get_signature_key_version x with None => ONone | Some z => OInt z end
   end.
 
 (* ---- the property on the implementation's observable ---- *)
 Local Open Scope Z_scope.
 
-Definition secret_eqb_str (s : secret) (k : bytes) : bool :=
-  match s with SStr k' => bytes_eqb k' k | SDict _ => false end.
-
-(* the key create(s0, .., ver0, kv0) signs with *)
+(* the key create(s0, .., kv0) signs with (format 2) *)
 Definition create_key (s0 : secret) (kv0 : option Z) : option bytes :=
   match s0, kv0 with
   | SStr k, _ => Some k
@@ -81,21 +86,61 @@ Definition opt_bytes_eqb (a b : option bytes) : bool :=
   | _, _ => false
   end.
 
+Definition is_suffix (d x : bytes) : bool :=
+  (List.length d <=? List.length x)%nat && bytes_eqb d (skipn (List.length x - List.length d) x).
+
+Definition digest_ok (d : bytes) : bool :=
+  match d with [] => false | _ => forallb (fun c => negb (N.eqb c 124) && negb (N.eqb c 10)) d end.
+
+(* the table is well formed: every digest looks like a digest *)
+Definition tbl_ok (tbl : mactable) : bool := forallb (fun e => digest_ok (snd e)) tbl.
+
+(* the (algorithm, key, message) create evaluates *)
+Definition create_query (s0 : secret) (name0 v0 : bytes) (ver0 t0 : Z) (kv0 : option Z)
+  : option (bool * bytes * bytes) :=
+  if ver0 =? 1 then
+    match s0 with
+    | SStr k => Some (true, k, name0 ++ b64encode v0 ++ dec_Z t0)
+    | SDict _ => None
+    end
+  else if ver0 =? 2 then
+    match create_key s0 kv0 with
+    | Some k => Some (false, k, to_sign2 (match kv0 with Some z => z | None => 0 end) t0 name0 v0)
+    | None => None
+    end
+  else None.
+
+Definition query_eqb (a : bool) (k m : bytes) (q : option (bool * bytes * bytes)) : bool :=
+  match q with
+  | Some (a', k', m') => Bool.eqb a a' && bytes_eqb k k' && bytes_eqb m m'
+  | None => false
+  end.
+
+(* Provenance is honest: every table digest that the presented string ends with belongs to
+   the MAC evaluation of the declared origin ([q]; None for HNone).  In other words the
+   string does not carry a valid MAC that the declared key holder did not issue.  (This is the
+   unforgeability premise of the soundness theorems, made checkable per case; the harness's
+   py_check asserts independently that it holds on every generated case.) *)
+Definition provenance_ok (tbl : mactable) (x : bytes) (q : option (bool * bytes * bytes)) : bool :=
+  forallb (fun e => let '(a, k, m, d) := e in negb (is_suffix d x) || query_eqb a k m q) tbl.
+
 Definition check_decode (tbl : mactable) (s : secret) (name x : bytes) (maxage now minv : Z)
-           (h : hint) (o : obs) : bool :=
+           (h : option (secret * bytes * bytes * Z * Z * option Z) + bool) (o : obs) : bool :=
   if 2 <? minv then obs_eqb o (OTag "ValueError") else
   match o with
+  | OTag t => String.eqb t "MacMissing"  (* model-side only: the implementation cannot produce it *)
   | ONone =>
       (* the round trip: an authentic value, presented unchanged with the same key and
          name inside its validity window, must NOT be rejected *)
       match h with
-      | HAuth s0 name0 v0 ver0 t0 kv0 =>
+      | inl (Some (s0, name0, v0, ver0, t0, kv0)) =>
           match create (tmac tbl true) (tmac tbl false) s0 name0 v0 ver0 t0 kv0 with
           | Ok y =>
               let kvn := match kv0 with Some z => z | None => 0 end in
-              negb (bytes_eqb x y && bytes_eqb name name0
-                    && opt_bytes_eqb (if ver0 =? 1 then (match s with SStr k => Some k | _ => None end)
-                                      else secret_key s kvn) (create_key s0 kv0)
+              negb (tbl_ok tbl && all_bytes v0
+                    && bytes_eqb x y && bytes_eqb name name0
+                    && (if ver0 =? 1 then (match s, s0 with SStr k, SStr k0 => bytes_eqb k k0 | _, _ => false end)
+                        else opt_bytes_eqb (secret_key s kvn) (create_key s0 kv0))
                     && (minv <=? ver0) && (1 <=? t0) && (now - maxage <=? t0)
                     && ((ver0 =? 2) || (t0 <=? now + 31 * 86400)))
           | Raise _ => true
@@ -106,9 +151,11 @@ Definition check_decode (tbl : mactable) (s : secret) (name x : bytes) (maxage n
       (* soundness: a value is only ever returned for (a re-split of, in format 1) an
          authentic message, under the same key *)
       match h with
-      | HNone => false
-      | HCrafted => true
-      | HAuth s0 name0 v0 ver0 t0 kv0 =>
+      | inr true => true                                            (* HCrafted *)
+      | inr false | inl None => negb (tbl_ok tbl && provenance_ok tbl x None)      (* HNone: a forgery *)
+      | inl (Some (s0, name0, v0, ver0, t0, kv0)) =>
+          if negb (tbl_ok tbl && all_bytes v0
+                   && provenance_ok tbl x (create_query s0 name0 v0 ver0 t0 kv0)) then true else
           match create (tmac tbl true) (tmac tbl false) s0 name0 v0 ver0 t0 kv0 with
           | Raise _ => false
           | Ok y =>
@@ -141,9 +188,20 @@ Definition check_decode (tbl : mactable) (s : secret) (name x : bytes) (maxage n
   | _ => false       (* decoding never raises *)
   end.
 
+Definition hint_bytes (h : hint) : option (secret * bytes * bytes * Z * Z * option Z) + bool :=
+  match h with
+  | HNone => inr false
+  | HCrafted => inr true
+  | HAuth s0 name0 v0 ver0 t0 kv0 => inl (Some (secret_of s0, utf8 name0, utf8 v0, ver0, t0, kv0))
+  end.
+
 Definition check_case (c : mactable * op) (o : obs) : bool :=
   let '(tbl, p) := c in
   match p with
   | OpCreate _ _ _ _ _ _ => true
-  | OpDecode s name x maxage now minv h => check_decode tbl s name x maxage now minv h o
+  | OpKeyVersion _ => true
+  | OpDecode s name None maxage now minv h =>
+      if 2 <? minv then obs_eqb o (OTag "ValueError") else obs_eqb o ONone
+  | OpDecode s name (Some xa) maxage now minv h =>
+      check_decode tbl (secret_of s) (utf8 name) (utf8 xa) maxage now minv (hint_bytes h) o
   end.
